@@ -3,6 +3,7 @@ package props
 // C18 — threaded news keeps every article and threads new ones correctly.
 
 import (
+	"bytes"
 	"fmt"
 	"path/filepath"
 	"sort"
@@ -436,5 +437,160 @@ func TestC18LeadingNewline(t *testing.T) {
 			}
 		})
 		ev.Case(evid.Hash(title), true, "leading-newline-title")
+	})
+}
+
+// TestC18Burst: several users post to the same category at the same instant (while an
+// older article is deleted): every accepted post is kept under an id of its own, every
+// other article stays retrievable unchanged, and the file reproduces the same category.
+func TestC18Burst(t *testing.T) {
+	ev := evid.New("C18", "TestC18Burst")
+	defer ev.Flush()
+	rapid.Check(t, func(rt *rapid.T) {
+		n := rapid.IntRange(2, 8).Draw(rt, "posters")
+		rounds := rapid.IntRange(3, 10).Draw(rt, "rounds")
+		sizes := rapid.SliceOfN(rapid.SampledFrom([]int{0, 20, 700, 6000}), rounds, rounds).Draw(rt, "sizes")
+		withDelete := rapid.SliceOfN(rapid.Bool(), rounds, rounds).Draw(rt, "deletes")
+		replyTo := rapid.SliceOfN(rapid.Bool(), rounds, rounds).Draw(rt, "replies")
+		accounts := []hlsim.AccountSpec{acct("admin", "Admin", "adminpw", allAccess)}
+		for i := 0; i < n; i++ {
+			accounts = append(accounts, acct(fmt.Sprintf("p%d", i), "P", "pw", hlref.AccessOf(hlref.PrivAnyName, hlref.PrivNewsReadArt, hlref.PrivNewsPostArt)))
+		}
+		inWorld(rt, hlsim.Options{Agreement: "a", Accounts: accounts}, func(rt *rapid.T, w *hlsim.World) {
+			admin := loginAs(rt, w, "10.18.9.1:1", "admin", "adminpw", "admin")
+			var cs []*hlsim.Conn
+			for i := 0; i < n; i++ {
+				cs = append(cs, loginAs(rt, w, fmt.Sprintf("10.18.9.%d:1", i+10), fmt.Sprintf("p%d", i), "pw", fmt.Sprintf("poster%d", i)))
+			}
+			cat := []string{"Cat"}
+			if !okReply(admin.Request(hlref.TranNewNewsCat, sfld(hlref.FNewsCatName, "Cat"))) {
+				rt.Fatalf("harness: new category")
+			}
+			type art struct {
+				title, poster, body string
+				parent              uint32
+			}
+			model := map[uint32]art{}
+			list := func(ctx string) map[uint32]art {
+				r := admin.Request(hlref.TranGetNewsArtNameList, newsPath(cat))
+				if !okReply(r) {
+					rt.Fatalf("%s: article list refused", ctx)
+				}
+				d, _ := r.Get(hlref.FNewsArtListData)
+				_, _, _, es, err := hlref.DecodeNewsArtList(d)
+				if err != nil {
+					rt.Fatalf("%s: article list not parseable: %v", ctx, err)
+				}
+				out := map[uint32]art{}
+				last := uint32(0)
+				for _, e := range es {
+					if _, dup := out[e.ID]; dup || e.ID <= last {
+						rt.Fatalf("%s: article list is not in strictly increasing id order at id %d", ctx, e.ID)
+					}
+					last = e.ID
+					r := admin.Request(hlref.TranGetNewsArtData, newsPath(cat), fld(hlref.FNewsArtID, hlref.BE32(int(e.ID))), sfld(hlref.FNewsArtDataFlav, "text/plain"))
+					if !okReply(r) {
+						rt.Fatalf("%s: listed article #%d is not retrievable", ctx, e.ID)
+					}
+					ti, _ := r.Get(hlref.FNewsArtTitle)
+					po, _ := r.Get(hlref.FNewsArtPoster)
+					bo, _ := r.Get(hlref.FNewsArtData)
+					pa, _ := r.Get(hlref.FNewsArtParentArt)
+					if string(ti) != string(e.Title) || len(bo) != e.BodySize {
+						rt.Fatalf("%s: article #%d: list says title %q / %d bytes, get-article says %q / %d bytes", ctx, e.ID, e.Title, e.BodySize, ti, len(bo))
+					}
+					out[e.ID] = art{string(ti), string(po), string(bo), uint32(hlref.U32(pa))}
+				}
+				return out
+			}
+			// match compares the category with the model plus the round's posts (whose ids the server chose)
+			match := func(ctx string, got map[uint32]art, posted []art) {
+				rest := map[uint32]art{}
+				for id, a := range got {
+					rest[id] = a
+				}
+				for id, a := range model {
+					if g, ok := rest[id]; !ok || g != a {
+						rt.Fatalf("%s: article #%d (%q by %s) is %v now (present=%v)", ctx, id, a.title, a.poster, g.title, ok)
+					}
+					delete(rest, id)
+				}
+				for _, p := range posted {
+					found := false
+					for id, g := range rest {
+						if g == p {
+							delete(rest, id)
+							found = true
+							break
+						}
+					}
+					if !found {
+						rt.Fatalf("%s: the accepted post %q by %s (%d bytes, parent %d) is not in the category; %d of %d posts of the round are present, category has %d articles", ctx, p.title, p.poster, len(p.body), p.parent, len(got)-len(model)-len(rest), len(posted), len(got))
+					}
+				}
+				if len(rest) != 0 {
+					rt.Fatalf("%s: the category holds %d articles nobody posted", ctx, len(rest))
+				}
+			}
+			for round := 0; round < rounds; round++ {
+				var ids []uint32
+				for id := range model {
+					ids = append(ids, id)
+				}
+				sort.Slice(ids, func(i, j int) bool { return ids[i] < ids[j] })
+				parent := uint32(0)
+				if replyTo[round] && len(ids) > 0 {
+					parent = ids[len(ids)/2]
+				}
+				var victim uint32
+				if withDelete[round] && len(ids) > 1 {
+					victim = ids[0]
+					if victim == parent {
+						victim = ids[1]
+					}
+				}
+				var posted []art
+				var reqIDs []uint32
+				for i, c := range cs {
+					a := art{fmt.Sprintf("r%d-p%d", round, i), fmt.Sprintf("poster%d", i), string(bytes.Repeat([]byte{byte('a' + i)}, sizes[round])), parent}
+					posted = append(posted, a)
+					id := c.NewID()
+					reqIDs = append(reqIDs, id)
+					c.SendAsync(hlref.Tran{Type: hlref.TranPostNewsArt, ID: id, Fields: []hlref.Field{newsPath(cat), fld(hlref.FNewsArtID, hlref.BE32(int(parent))), sfld(hlref.FNewsArtTitle, a.title), sfld(hlref.FNewsArtDataFlav, "text/plain"), sfld(hlref.FNewsArtData, a.body)}}.Encode())
+				}
+				if victim != 0 {
+					admin.SendAsync(hlref.Tran{Type: hlref.TranDelNewsArt, ID: admin.NewID(), Fields: []hlref.Field{newsPath(cat), fld(hlref.FNewsArtID, hlref.BE32(int(victim)))}}.Encode())
+				}
+				settle(0)
+				for i, c := range cs {
+					ok := false
+					for _, tr := range c.TakeInbox() {
+						if tr.IsReply == 1 && tr.ID == reqIDs[i] && tr.Err == 0 {
+							ok = true
+						}
+					}
+					if !ok {
+						rt.Fatalf("round %d: poster %d got no positive reply to its post", round, i)
+					}
+				}
+				admin.TakeInbox()
+				if victim != 0 {
+					delete(model, victim)
+				}
+				ctx := fmt.Sprintf("round %d (%d users posted %d-byte articles at the same instant, parent %d, concurrent delete of #%d)", round, n, sizes[round], parent, victim)
+				got := list(ctx)
+				match(ctx, got, posted)
+				model = got
+			}
+			if err := w.News.Load(); err != nil {
+				rt.Fatalf("reload of the news file: %v", err)
+			}
+			match("after reloading the news file", list("after reloading the news file"), nil)
+		})
+		ev.Case(evid.Hash("c18burst", n, fmt.Sprint(sizes), fmt.Sprint(withDelete), fmt.Sprint(replyTo)), true, "burst", fmt.Sprintf("posters:%d", n))
+		ev.Label("burst_rounds", rounds)
+		if ev.WantSample() {
+			ev.Sample(map[string]any{"engine": "bubble, concurrent handlers", "posters": n, "rounds": rounds, "body_sizes": sizes, "concurrent_delete": withDelete})
+		}
 	})
 }
